@@ -45,3 +45,48 @@ func VH_message_decoders_any_bytes() {
 	}
 	vReach("accept")
 }
+
+// C08(4) for the v2 (BIP324) plaintext framing: every plaintext of the listed lengths - in particular every
+// truncation of the 13-byte long-form command header (0x00 + 12 command bytes) and the one-byte message-id form -
+// is either decoded or rejected with an error, never a panic; a long-form header shorter than 13 bytes is always
+// rejected; what is accepted re-encodes through the accepted message's own encoder to the payload that followed the
+// header.
+//verif:opts reach=accept,reject,shortheader max_decisions=4000
+func VH_read_v2_message_any_bytes() {
+	lens := []int{0, 1, 2, 12, 13, 14}
+	if vTier() == 1 {
+		lens = []int{0, 1, 2, 3, 5, 8, 9, 10, 11, 12, 13, 14, 17, 21, 22, 37, 45}
+	}
+	n := lens[vNondetLen("leni", len(lens)-1)]
+	in := vNondetBytes("in", n)
+	long := vNondetBool("longform")
+	if n > 0 {
+		if long {
+			vAssume(in[0] == 0)
+		} else {
+			vAssume(in[0] != 0) // one-byte message id (ids without a message type are rejected as unknown commands)
+		}
+	}
+	vAllocBound(4 * MaxMessagePayload)
+	vAllocSplit(2)
+	vSliceSplit(3)
+	msg, payload, err := ReadV2MessageN(in, ProtocolVersion, LatestEncoding)
+	if n == 0 || (long && n < CommandSize+1) {
+		vAssert(err != nil && msg == nil, "an empty plaintext or a truncated long-form header is rejected")
+		vReach("shortheader")
+		return
+	}
+	if err != nil {
+		vReach("reject")
+		return
+	}
+	hdr := 1
+	if long {
+		hdr = CommandSize + 1
+	}
+	vAssert(len(payload) == n-hdr, "the payload returned is everything after the header")
+	for i := range payload {
+		vAssert(payload[i] == in[hdr+i], "payload bytes are the input's")
+	}
+	vReach("accept")
+}
